@@ -219,7 +219,7 @@ static int give_uid_to_object (object_t * ob) {
         }
 
 #ifdef AUTO_TRUST_BACKBONE
-      if (backbone_uid && !strcmp (backbone_uid->name, creator_name))
+      if (backbone_uid && current_object->euid && !strcmp (backbone_uid->name, creator_name))
         {
           /*
           * The object is loaded from backbone. This is trusted, so we let it
